@@ -6,7 +6,17 @@ CONSTANTS Upper, Lower, Digit, Other, MaxLen
 VARIABLES phase, nm
 Alphabet == {[c |-> "U", s |-> x] : x \in Upper} \cup {[c |-> "l", s |-> x] : x \in Lower}
             \cup {[c |-> "d", s |-> x] : x \in Digit} \cup {[c |-> "x", s |-> x] : x \in Other}
-Names == UNION {[1..n -> Alphabet] : n \in 1..MaxLen}
+\* documented / realistic file-name parts beyond the small alphabet
+UpAll == {"A","B","C","D","E","F","G","H","I","K","L","M","N","O","P","R","S","T","V","Z"}
+LoAll == {"a","e","i","l","o","r","u"}
+DiAll == {"0","1","2","3","4","5","6","7","8","9"}
+Mk(chars) == [i \in 1..Len(chars) |-> [c |-> IF chars[i] \in UpAll THEN "U" ELSE IF chars[i] \in LoAll THEN "l"
+                                               ELSE IF chars[i] \in DiAll THEN "d" ELSE "x", s |-> chars[i]]]
+ExtraNames == {Mk(<<"1","H","2","-","1","6","O">>), Mk(<<"1","2","C","-","1","6","O","2">>),
+               Mk(<<"H","2","O">>), Mk(<<"C","H","4">>), Mk(<<"N","a">>), Mk(<<"T","i","O">>),
+               Mk(<<"1","H","2","-","1","6","O","_","_","P","O","K","A","Z","A","T","E","L">>),
+               Mk(<<"4","8","T","i","-","1","6","O">>), Mk(<<"h","2","o">>), Mk(<<"C","2","H","2">>)}
+Names == UNION {[1..n -> Alphabet] : n \in 1..MaxLen} \cup ExtraNames
 NInit == phase = "in" /\ nm \in Names
 NEval == phase = "in" /\ phase' = "done" /\ UNCHANGED nm
 NSpec == NInit /\ [][NEval]_<<phase, nm>>
